@@ -265,6 +265,7 @@ fn judge_real(ctx: &mut Ctx, c: &CaseIn, parts: &[Vec<usize>], out: &Out, specs:
                 ctx.report.violation("oracle", "C14:histogram-range-doc-count-counts-values", format!("{how}: at {whr}: {what} — explained by per-value counting together with rendered key order"), case_json(c, parts, "final"));
                 ctx.report.violation("oracle", "C14:terms-key-order-of-rendered-keys", format!("{how}: at {whr}: {what} — explained by per-value counting together with rendered key order"), case_json(c, parts, "final"));
             }
+            None if tophits_flush_signature(c.nodes, &whr, c.docs.iter().filter(|d| c.q.matches(d)).count()) => ctx.report.violation("oracle", "C14:top-hits-lost-after-intermediate-flush", format!("{how}: at {whr}: {what} — top_hits below a bucket aggregation over >= 2048 collected documents: the sub-aggregation buffer is flushed in batches and TopHitsSegmentCollector::prepare_max_bucket resizes (shrinks) its bucket vector to the current batch's highest bucket id"), case_json(c, parts, "final")),
             None if missing_sig => ctx.report.violation("oracle", "C14:metric-missing-cast-to-u64-in-segment-without-column", format!("{how}: at {whr}: {what} — the metric has a negative / fractional `missing` and a segment holds no value of the field (the column is absent there and `missing` is converted as u64)"), case_json(c, parts, "final")),
             None => ctx.report.violation("oracle", &key_of(&whr, c.nodes), format!("{how}: at {whr}: {what}"), case_json(c, parts, "final")),
         }
@@ -326,6 +327,18 @@ fn no_count_cut(srs: &[SR]) -> bool {
         SR::Filter(_, s) => no_count_cut(s),
         _ => true,
     })
+}
+
+/// the failing node is a top_hits below a bucket aggregation and at least FLUSH_THRESHOLD (2048)
+/// documents are collected, so that the buffered sub-aggregation is flushed more than once
+fn tophits_flush_signature(nodes: &[Node], whr: &str, matching: usize) -> bool {
+    fn find<'a>(nodes: &'a [Node], name: &str) -> Option<&'a Node> {
+        for n in nodes { if n.name == name { return Some(n); } if let Some(x) = find(&n.subs, name) { return Some(x); } }
+        None
+    }
+    let names: Vec<&str> = whr.split('>').filter(|s| s.starts_with('a')).collect();
+    let last = names.last().cloned().unwrap_or("");
+    names.len() >= 2 && matching >= 2048 && matches!(find(nodes, last).map(|n| &n.agg), Some(Agg::Metric { kind: MK::TopHits, .. }))
 }
 
 fn range_absent_column_signature(nodes: &[Node], docs: &[MDoc], parts: &[Vec<usize>]) -> bool {
@@ -444,6 +457,7 @@ pub fn check_request(ctx: &mut Ctx, rng: &mut Rng, corpus: &Corpus, nodes: &[Nod
         for (i, other) in normed.iter().enumerate() {
             if let Err(e) = same_result(&first, other) {
                 let key = if any_metric_missing_signature(nodes, &corpus.docs, &finals[i + 1].2) || any_metric_missing_signature(nodes, &corpus.docs, &finals[0].2) { "C14:metric-missing-cast-to-u64-in-segment-without-column" }
+                    else if e.contains("top_hits") && matching.len() >= 2048 { "C14:top-hits-lost-after-intermediate-flush" }
                     else if specs.alts[0] != specs.base { "C14:histogram-range-doc-count-counts-values" }
                     else if has_count_ordered_terms(nodes) && e.contains("buckets") && !no_count_cut(&specs.base) { "C14:terms-count-ties-partition-dependent" } else { "C14:result-depends-on-partition" };
                 ctx.report.violation("oracle", key, format!("same documents, {} vs {}: {e}", finals[0].0, finals[i + 1].0), case_json(&c, &finals[i + 1].2, "partition"));
@@ -647,6 +661,7 @@ fn shrink_violations(ctx: &mut Ctx) {
         if seen.contains(&key) || seen.len() >= limit { continue; }
         seen.push(key.clone());
         let case = ctx.report.violations[i].case.clone();
+        if case["docs"].as_array().map(|d| d.len()).unwrap_or(0) > 600 { continue; }
         if let Some((c, what)) = shrink(ctx, &case, &key) {
             ctx.report.violations[i].case = c;
             ctx.report.violations[i].what = format!("[minimised] {what}");
@@ -668,6 +683,29 @@ fn hist_width_ok(nodes: &[Node], docs: &[MDoc]) -> bool {
         };
         ok && hist_width_ok(&n.subs, docs)
     })
+}
+
+/// hand-written corpus: 2100 documents so that the sub-aggregation buffer of a histogram is
+/// flushed twice, the last batch touching only the first bucket
+fn probe_tophits_flush(ctx: &mut Ctx) {
+    let mut docs: Vec<MDoc> = vec![];
+    for i in 0..2100usize {
+        let mut d: MDoc = vec![vec![]; NF];
+        d[Fd::U.id()] = vec![if i < 2000 { (i % 10) as i64 * 10 } else { 0 }];
+        d[Fd::Uid.id()] = vec![i as i64];
+        d[Fd::Sel.id()] = vec![0];
+        docs.push(d);
+    }
+    let nodes = vec![Node { name: "a1".into(), agg: Agg::Hist { field: Fd::U, interval: 10, offset: None, mdc: Some(1), hard: None, ext: None, date_hist: false },
+        subs: vec![Node { name: "a2".into(), agg: Agg::Metric { kind: MK::TopHits, field: Fd::Uid, missing: None, desc: true, k: 1 }, subs: vec![] }] }];
+    let all: Vec<usize> = (0..docs.len()).collect();
+    let halves = vec![(0..1000).collect::<Vec<usize>>(), (1000..2100).collect()];
+    let segs = vec![(vec![all.clone()], build_index(&docs, &[all.clone()])), (halves.clone(), build_index(&docs, &halves))];
+    let idxs = vec![build_index(&docs, &[all.clone()])];
+    let corpus = Corpus { docs, segs, split: (vec![all], idxs) };
+    let mut rng = Rng::new(1);
+    ctx.report.count("probe:top-hits-two-flushes");
+    check_request(ctx, &mut rng, &corpus, &nodes, Q::All);
 }
 
 fn gen_query(rng: &mut Rng) -> Q {
@@ -719,6 +757,7 @@ pub fn run(ctx: &mut Ctx) {
             ctx.report.violation("model", "C14:request-defaults-differ", format!("lean (from Gen) {m} vs harness / DEFAULT_BUCKET_LIMIT {mine}"), json!({"kind": "defaults"}));
         }
     }
+    probe_tophits_flush(ctx);
     let corpora = ctx.budget(60, 2000);
     let reqs_per = ctx.budget(7, 12);
     for ci in 0..corpora {
